@@ -250,7 +250,8 @@ fn parse_args_rules(cx: &mut Ctx) {
                 if let Some((scrut, brs)) = lr::branches(e) {
                     if scrut == "&name" || scrut == "name" {
                         for b in &brs {
-                            if matches!(b.pat, lr::CPat::Wild | lr::CPat::NoneP) && b.body.len() == 1 && sm::tsc(b.body[0]) == "double_starred=true;" {
+                            let only: String = b.body.iter().map(|x| sm::tsc(*x)).chain(b.tail.iter().map(|x| sm::tsc(*x))).collect();
+                            if matches!(b.pat, lr::CPat::Wild | lr::CPat::NoneP) && only.trim_end_matches(';') == "double_starred=true" {
                                 ok = true;
                             }
                         }
@@ -566,7 +567,7 @@ fn lexer_error_sites(cx: &mut Ctx) {
         Some(f) => {
             let t = sm::tsx(&f.block);
             let eol = t.contains("ifc=='\\n'&&!triple_quoted{returnErr(LexicalError{error:LexicalErrorType::OtherError(\"EOL while scanning string literal\".to_owned(),),location:self.get_pos(),});}");
-            let eof = t.contains("_=>{returnErr(LexicalError{error:iftriple_quoted{LexicalErrorType::Eof}else{LexicalErrorType::StringError},location:self.get_pos(),});}");
+            let eof = t.contains("_=>returnErr(LexicalError{error:iftriple_quoted{LexicalErrorType::Eof}else{LexicalErrorType::StringError},location:self.get_pos(),}),");
             if eol {
                 cx.ok(rule, "unterminated single-quoted string at end of line => Err");
             } else {
@@ -608,7 +609,7 @@ fn numeric_shape(cx: &mut Ctx) {
                 let guard_at = b.body.iter().position(|st| match st {
                     syn::Stmt::Expr(x, _) => lr::branches(x).map_or(false, |(sc, bb)| {
                         sc == "self.window[1]" && bb.first().map_or(false, |g| g.pat == lr::CPat::Chars(['_'].into_iter().collect()) && {
-                            let body: String = g.body.iter().map(|s| sm::tsc(*s)).collect();
+                            let body: String = g.body.iter().map(|s| sm::tsc(*s)).chain(g.tail.iter().map(|s| sm::tsc(*s))).collect();
                             body.starts_with("returnErr(LexicalError{") && body.contains("\"Invalid Syntax\"")
                         })
                     }),
